@@ -11,8 +11,10 @@ PROPS = {
             {"driver": "load", "stage": "bytes", "flavour": "asan-full", "hang_secs": 30},
             {"driver": "load", "stage": "alpha", "flavour": "asan-full", "hang_secs": 30, "budget2": {"quick": 4, "thorough": 5}},
             {"driver": "load", "stage": "ctx", "flavour": "asan-full", "hang_secs": 30},
-            {"driver": "load", "stage": "gram", "flavour": "asan-full", "hang_secs": 30},
+            {"driver": "load", "stage": "gram", "flavour": "asan-full", "hang_secs": 30, "budget": {"quick": 16000, "thorough": 300000}},
             {"driver": "load", "stage": "deep", "flavour": "asan-full", "hang_secs": 60, "shards": 8},
+            {"driver": "load", "stage": "ctx", "flavour": "msan", "hang_secs": 30},
+            {"driver": "load", "stage": "gram", "flavour": "msan", "hang_secs": 30, "budget": {"quick": 3000, "thorough": 60000}, "budget2": {"quick": 8, "thorough": 1}},
         ],
     },
     "C02": {
@@ -64,7 +66,8 @@ PROPS = {
         "level": "exploration",
         "assumptions": TRUST,
         "stages": [{"driver": "ser", "stage": "dec", "flavour": "asan"},
-                   {"driver": "ser", "stage": "api", "flavour": "asan", "budget": {"quick": 150000, "thorough": 1500000}}],
+                   {"driver": "ser", "stage": "api", "flavour": "asan", "budget": {"quick": 150000, "thorough": 1500000}},
+                   {"driver": "ser", "stage": "api", "flavour": "msan", "budget": {"quick": 30000, "thorough": 300000}}],
     },
     "C07": {
         "level": "exploration",
@@ -106,7 +109,9 @@ PROPS = {
         "assumptions": TRUST + ["'exactly as they were' is judged on the semantic snapshot (contents, order, sizes, reference counts, identity); spare capacity is excluded"],
         "stages": [{"driver": "fault", "stage": "api", "flavour": "asan", "budget": {"quick": 6000, "thorough": 60000}},
                    {"driver": "fault", "stage": "small", "flavour": "asan", "budget": {"quick": 5, "thorough": 6}},
-                   {"driver": "fault", "stage": "corpus", "flavour": "asan", "budget": {"quick": 8000, "thorough": 80000}}],
+                   {"driver": "fault", "stage": "corpus", "flavour": "asan", "budget": {"quick": 8000, "thorough": 80000}},
+                   {"driver": "fault", "stage": "api", "flavour": "msan", "budget": {"quick": 1500, "thorough": 15000}},
+                   {"driver": "fault", "stage": "corpus", "flavour": "msan", "budget": {"quick": 1000, "thorough": 10000}}],
     },
     "C15": {
         "level": "exploration",
